@@ -191,4 +191,60 @@ theorem handleFrame_recvOK {r r' : Recv} {f : Frame} {ev : Option DataEv} (h : R
       obtain ⟨q1, q2, q3⟩ := hfPost_ok m1 hf
       exact ⟨q1, by rw [q2, m2, e1], by rw [← e3, ← m3]; exact q3⟩
 
+/-! ## finished implies a final size -/
+
+/-- the receive half is finished only with a fixed final size (FIN or RESET_STREAM) -/
+def FinOK (r : Recv) : Prop := r.finished = true → r.finalSize.isSome = true
+
+theorem hfPre_fin (r : Recv) (f : Frame) :
+    (hfPre r f).finished = r.finished ∧ (r.finalSize.isSome = true → (hfPre r f).finalSize.isSome = true) ∧
+    (f.fin = true → (hfPre r f).finalSize.isSome = true) := by
+  unfold hfPre
+  simp only []
+  split <;> split <;> simp_all
+
+theorem hfMid_fin (s : Recv) (f : Frame) : (hfMid s f).finished = s.finished ∧ (hfMid s f).finalSize = s.finalSize := by
+  unfold hfMid
+  simp only []
+  split <;> split <;> simp
+
+theorem pullData_fin (r : Recv) :
+    (pullData r).1.finalSize = r.finalSize ∧ (pullData r).1.finished = r.finished := by
+  unfold pullData
+  split
+  · exact ⟨rfl, rfl⟩
+  · split <;> exact ⟨rfl, rfl⟩
+
+theorem hfPost_finOK {s s' : Recv} {ev : Option DataEv} (h : FinOK s) (hp : hfPost s = .ok (s', ev)) : FinOK s' := by
+  obtain ⟨p1, p2⟩ := pullData_fin s
+  unfold hfPost at hp
+  simp only [] at hp
+  generalize pullData s = q at *
+  obtain ⟨q1, q2⟩ := q
+  simp only [] at hp p1 p2
+  have key : ∀ (b : Prop) [Decidable b], (b → q1.finalSize.isSome = true) →
+      FinOK (if b then { q1 with finished := true } else q1) := by
+    intro b _ hb
+    unfold FinOK at *
+    split
+    · intro _; exact hb (by assumption)
+    · intro hfin; rw [p1]; exact h (by rw [← p2]; exact hfin)
+  split at hp <;>
+    (simp at hp; obtain ⟨rfl, _⟩ := hp; apply key; intro hb; rw [← hb]; rfl)
+
+theorem handleFrame_finOK {r r' : Recv} {f : Frame} {ev : Option DataEv} (h : FinOK r)
+    (hf : handleFrame r f = .ok (r', ev)) : FinOK r' := by
+  rw [handleFrame_eq] at hf
+  obtain ⟨p1, p2, p3⟩ := hfPre_fin r f
+  split at hf
+  · simp at hf
+  · split at hf
+    · simp only [] at hf
+      split at hf <;> (simp at hf; obtain ⟨rfl, _⟩ := hf; unfold FinOK at *; simp_all)
+    · obtain ⟨m1, m2⟩ := hfMid_fin (hfPre r f) f
+      refine hfPost_finOK ?_ hf
+      unfold FinOK at *
+      rw [m1, m2, p1]
+      intro hfin; exact p2 (h hfin)
+
 end AQ.Flow
